@@ -228,6 +228,44 @@ func VerifEncodeRequestTrailers(tr http.Header) ([]qpack.HeaderField, bool, erro
 	return fs, true, err
 }
 
+// VerifDecodeTrailers drives the REAL receive-side glue for trailers, decodeTrailers (the function
+// client.go and server_conn.go install as the stream's trailer parser): fs is QPACK-encoded with the
+// real encoder (static table + Huffman, as the writers do), wrapped in a headersFrame of that length,
+// optionally cut short on the stream, and handed to decodeTrailers with maxHeaderBytes.
+// roundtrip reports whether a fresh real decoder gives back exactly fs (the "qpack is the identity on
+// field lists" assumption of the H3Writers model).
+func VerifDecodeTrailers(fs []qpack.HeaderField, maxHeaderBytes int, truncate int) (hdr http.Header, encLen int, roundtrip bool, err error) {
+	var block bytes.Buffer
+	enc := qpack.NewEncoder(&block)
+	for _, f := range fs {
+		if err := enc.WriteField(f); err != nil {
+			return nil, 0, false, fmt.Errorf("verif: encode: %w", err)
+		}
+	}
+	b := block.Bytes()
+	encLen = len(b)
+	roundtrip = true
+	if encLen > 0 {
+		fn := qpack.NewDecoder().Decode(b)
+		for i := 0; ; i++ {
+			f, derr := fn()
+			if derr == io.EOF {
+				roundtrip = roundtrip && i == len(fs)
+				break
+			}
+			if derr != nil || i >= len(fs) || f != fs[i] {
+				roundtrip = false
+				break
+			}
+		}
+	}
+	if truncate > encLen {
+		truncate = encLen
+	}
+	hdr, err = decodeTrailers(bytes.NewReader(b[:encLen-truncate]), &headersFrame{Length: uint64(encLen)}, maxHeaderBytes, qpack.NewDecoder(), nil, quic.StreamID(0))
+	return hdr, encLen, roundtrip, err
+}
+
 // VerifWReq is the abstract request of the H3Writers model: what encodeHeaders reads from the
 // http.Request, after the steps that live outside /repo (PunycodeHostPort, ValidHostHeader,
 // URL.RequestURI).
